@@ -20,7 +20,10 @@ MANIFEST = {
              "x 2 operations and 3 x 1 (quick), additionally 2 x 3, 3 x 2 and 3 x 3 (thorough) over 2-3 keys, value sizes 1-2, "
              "capacity 2-4, and all sequential histories of <= 4 (quick) / <= 6 (thorough) operations incl. 3-key "
              "configurations in which eviction has a choice of victim, a Put evicting 2-3 entries with the failing value "
-             "anywhere in eviction order, and instances scaled so that the capacity is math.MaxUint64 / 2^64-2. EVERY transition is replayed on the real lru.Cache "
+             "anywhere in eviction order, and instances scaled so that the capacity is math.MaxUint64 / 2^64-2. Configurations with a cache created "
+             "WithDeleteCallback make the callback a yield point inside the locked section, and start calls while "
+             "another call is inside its locked section: the real goroutine must park on the mutex and go on only when "
+             "the holder unlocks (a call that gets in is run to completion at once and judged). EVERY transition is replayed on the real lru.Cache "
              "by a scheduler that releases exactly one real goroutine per model step at the hooks; after each step "
              "Len/Size/Range/RangeFILO and ll/index/size are projected (zero drift on the unchanged tree). LRUProps.tla "
              "(capacity, size/len exactness, index and list one map, linearizability of every returned result against an "
